@@ -36,6 +36,7 @@ def norm(detail):
 def check_one(job):
     form, tag, src = job
     st = smt.Stats()
+    smt.STATS = st  # path-feasibility queries of the machines are charged to this job too
     out = {"job": job, "sigs": [], "counts": {}, "status": None}
     o = classify(src + "\n")
     out["status"] = o[0]
